@@ -220,6 +220,13 @@ where
     T: num_traits::Float,
 {
     if angle_conversions {
+        // An ordinary float literal keeps exactly the value it has without the extension:
+        // evaluating it as an f64 expression and narrowing afterwards would round f32 twice.
+        if !matches!(tag, SfTag::Degrees)
+            && let Ok(v) = s.trim().parse::<T>()
+        {
+            return Ok(v);
+        }
         return crate::robotics::parse_yaml12_float_angle_converting(s, location, tag);
     }
     let t = s.trim();
